@@ -98,13 +98,19 @@ def run_case(n, listing, api):
 
 
 def work(part, shard):
+    prev = {}
     for n, tree, root in shard:
         r = rooted(tree, n, root)
         for listing in itertools.permutations(r):
             listing = list(listing)
             parent_first = check_order(list(range(len(listing))), listing, n) is None
             for api in ("toposort", "pafscorer"):
+                # all listings of one tree run consecutively in this process; a case remembers its predecessor so that a
+                # failure caused by state left behind by the previous call can be replayed
                 case = {"n": n, "listing": listing, "api": api}
+                if api in prev:
+                    case["after"] = prev[api]
+                prev[api] = {"n": n, "listing": listing, "api": api}
                 part.count()
                 part.transition()
                 key = (n, tuple(listing), api)
@@ -146,6 +152,12 @@ def run(ctx):
 
 
 def replay(case):
+    if case.get("after"):
+        a = case["after"]
+        try:
+            run_case(a["n"], [tuple(e) for e in a["listing"]], a["api"])  # rebuild the one-step history
+        except Exception:
+            pass
     listing = [tuple(e) for e in case["listing"]]
     order = run_case(case["n"], listing, case["api"])
     err = check_order(list(order), listing, case["n"])
